@@ -32,10 +32,10 @@ var H *vdb.Handle
 var pre string
 var ddl []string
 var crashSeq int
-var allModels = append(append([]interface{}{}, txm.AllModels...), hkModels...)
-var allTables = append(append([]string{}, txm.AllTables...), hkTables...)
+var allModels = append(append(append([]interface{}{}, txm.AllModels...), hkModels...), rdModels...)
+var allTables = append(append(append([]string{}, txm.AllTables...), hkTables...), rdTables...)
 
-const seedSQL = txm.SeedSQL + hkSeedSQL
+const seedSQL = txm.SeedSQL + hkSeedSQL + rdSeedSQL
 
 func initEnv(c *core.Ctx) {
 	h, err := vdb.Open(vdb.Options{})
@@ -95,7 +95,9 @@ var causes = []error{nil, nil, context.Canceled, context.DeadlineExceeded, sql.E
 // spec: how the handle the operation runs on was made and what that handle did before.
 type spec struct {
 	// prep: 0 = plain handle; 1 = gorm.Config{PrepareStmt: true}; 2 = plain handle, the operation starts from
-	// db.Session(&Session{PrepareStmt: true}). Preparing statements does not change what one operation is.
+	// db.Session(&Session{PrepareStmt: true}); 3 = both (Config AND Session: two prepared-statement wrappers stacked);
+	// 4 = plain handle, Session{PrepareStmt: true} derived twice (stacked as well). Preparing statements, however
+	// often it was asked for, does not change what one operation is.
 	prep int
 	// warm (prepared-statement modes): what the handle ran BEFORE the operation, i.e. from where the statement
 	// cache knows the operation's SQL texts: 0 = nothing (first seen inside the implicit transaction);
@@ -106,6 +108,9 @@ type spec struct {
 	// entry: how the handle the operation starts from was derived. A scope that hands back a new session (Session,
 	// WithContext; Debug does the same) is ordinary use: the operation is still one operation.
 	entry int
+	// read / rstyle (entry 5 only): which read reaches the AfterFind hook the operation is issued from, and how the
+	// hook derives the handle it runs the operation on from the tx it was given
+	read, rstyle int
 	// hstyle / hform: second family only, see hk.go
 	hstyle, hform, hwho int
 	hmask               uint64
@@ -115,15 +120,20 @@ type spec struct {
 	hk    bool
 }
 
-var prepNames = []string{"", "Config{PrepareStmt:true}", "db.Session(&Session{PrepareStmt:true})"}
+var prepNames = []string{"", "Config{PrepareStmt:true}", "db.Session(&Session{PrepareStmt:true})", "Config{PrepareStmt:true}+db.Session(&Session{PrepareStmt:true})", "db.Session(&Session{PrepareStmt:true}).Session(&Session{PrepareStmt:true})"}
 var warmNames = []string{"cold", "same-op-under-SkipDefaultTransaction", "same-op-in-default-transaction", "other-op-and-reads-under-SkipDefaultTransaction"}
-var entryNames = []string{"", "db.Scopes(returns d.Session(&Session{}))", "db.Scopes(returns d.WithContext(ctx))", "db.Scopes(identity, returns d.Session(&Session{}))", "db.Session(&Session{CreateBatchSize:2})"}
+var entryNames = []string{"", "db.Scopes(returns d.Session(&Session{}))", "db.Scopes(returns d.WithContext(ctx))", "db.Scopes(identity, returns d.Session(&Session{}))", "db.Session(&Session{CreateBatchSize:2})", "the tx an AfterFind hook receives"}
+
+const entryAfterFind = 5
 
 // tag is the part of shapes and violation signatures that names the mode ("" for the plain, direct mode)
 func (s spec) tag() string {
 	var p []string
 	if s.prep != 0 {
 		p = append(p, "prep="+prepNames[s.prep], "history="+warmNames[s.warm])
+	}
+	if s.entry == entryAfterFind {
+		p = append(p, "issued-from-AfterFind-hook-of="+readNames[s.read]+",on="+hookStyles[s.rstyle])
 	}
 	if s.hk {
 		p = append(p, "hook-writes-through="+hookStyles[s.hstyle]+hookForms[s.hform], "writing="+hookWhos[s.hwho])
@@ -135,10 +145,21 @@ func (s spec) tag() string {
 }
 
 func (s spec) base(h *vdb.Handle) *gorm.DB {
-	if s.prep == 2 {
+	switch s.prep {
+	case 2, 3:
 		return h.DB.Session(&gorm.Session{PrepareStmt: true})
+	case 4:
+		return h.DB.Session(&gorm.Session{PrepareStmt: true}).Session(&gorm.Session{PrepareStmt: true})
 	}
 	return h.DB
+}
+
+// runOp executes op from the case's entry handle; run is what actually calls op.Run (it arms the faults first).
+func (s spec) runOp(h *vdb.Handle, run func(db *gorm.DB) *gorm.DB) *gorm.DB {
+	if s.entry == entryAfterFind {
+		return runFromAfterFind(s, s.base(h).Session(&gorm.Session{}), run)
+	}
+	return run(s.entryHandle(h))
 }
 
 func (s spec) entryHandle(h *vdb.Handle) *gorm.DB {
@@ -158,7 +179,7 @@ func (s spec) entryHandle(h *vdb.Handle) *gorm.DB {
 
 // openFresh opens a new database with the schema of H and the seeded rows.
 func openFresh(s spec) *vdb.Handle {
-	h, err := vdb.Open(vdb.Options{Config: gorm.Config{PrepareStmt: s.prep == 1}})
+	h, err := vdb.Open(vdb.Options{Config: gorm.Config{PrepareStmt: s.prep == 1 || s.prep == 3}})
 	if err != nil {
 		panic(err)
 	}
@@ -203,7 +224,17 @@ type run1 struct {
 	other *txm.Op
 }
 
-func (x run1) execute(failCall, failHook int, cause error, bare bool) runResult {
+// fault: what one run injects. call / hook: 1-based index of the failing driver call / hook invocation (0 = none).
+type fault struct {
+	call, hook int
+	cause      error
+	bare       bool
+	// mid (reference run of an operation that runs two pipelines): receives the dump of all tables taken when the
+	// SECOND transaction is about to begin, i.e. what the first pipeline left committed
+	mid *string
+}
+
+func (x run1) execute(f fault) runResult {
 	h := H
 	if x.s.fresh {
 		h = openFresh(x.s)
@@ -219,20 +250,50 @@ func (x run1) execute(failCall, failHook int, cause error, bare bool) runResult 
 		}
 	}
 	txm.ResetHooks()
-	txm.H.FailAt = failHook
-	txm.H.Cause = cause
-	txm.H.Bare = bare
+	txm.H.FailAt = f.hook
+	txm.H.Cause = f.cause
+	txm.H.Bare = f.bare
 	defer func() { txm.H.Cause, txm.H.Bare = nil, false }()
 	var count int64
-	if failCall > 0 {
-		h.Rec.SetHook(recdrv.FailNth(failCall, &recdrv.ErrInjected{At: fmt.Sprintf("driver call %d", failCall), Cause: cause}, &count))
-	} else {
-		h.Rec.SetHook(recdrv.FailNth(-1, nil, &count))
+	inner := recdrv.FailNth(-1, nil, &count)
+	if f.call > 0 {
+		inner = recdrv.FailNth(f.call, &recdrv.ErrInjected{At: fmt.Sprintf("driver call %d", f.call), Cause: f.cause}, &count)
 	}
-	mark := h.Rec.Mark()
-	res := x.op.Run(x.s.entryHandle(h))
-	h.Rec.SetHook(nil)
-	out := runResult{err: res.Error, rows: res.RowsAffected, events: h.Rec.Since(mark), hooks: txm.H.Count, hookLog: txm.H.Log}
+	hook := inner
+	var cut [][2]int
+	if f.mid != nil {
+		begins, nested := 0, false
+		hook = func(ev *recdrv.Event) error {
+			if nested {
+				return nil
+			}
+			if ev.Kind == recdrv.KBegin {
+				if begins++; begins == 2 {
+					nested = true
+					lo := h.Rec.Mark()
+					*f.mid = vdb.Dump(h.SQL, allTables...)
+					cut = append(cut, [2]int{lo, h.Rec.Mark()})
+					nested = false
+				}
+			}
+			return inner(ev)
+		}
+	}
+	var out runResult
+	// the faults are armed around the operation itself: what reaches it (the read whose hook issues it) is not under test
+	res := x.s.runOp(h, func(db *gorm.DB) *gorm.DB {
+		h.Rec.SetHook(hook)
+		mark := h.Rec.Mark()
+		res := x.op.Run(db)
+		h.Rec.SetHook(nil)
+		evs := h.Rec.Since(mark)
+		for i := len(cut) - 1; i >= 0; i-- {
+			evs = append(evs[:cut[i][0]-mark], evs[cut[i][1]-mark:]...)
+		}
+		out.events = evs
+		return res
+	})
+	out.err, out.rows, out.hooks, out.hookLog = res.Error, res.RowsAffected, txm.H.Count, txm.H.Log
 	txm.H.FailAt = 0
 	out.ctr = h.Rec.Counters()
 	out.inUse = h.SQL.Stats().InUse
@@ -261,10 +322,12 @@ func executeCrash(c *core.Ctx, s spec, op txm.Op, k int) (after string, opErr er
 	txm.ResetHooks()
 	var count int64
 	h.Rec.NextFaults = true
-	h.Rec.SetHook(recdrv.FailNth(k, recdrv.ErrCrash, &count))
-	res := op.Run(s.entryHandle(h))
+	res := s.runOp(h, func(db *gorm.DB) *gorm.DB {
+		h.Rec.SetHook(recdrv.FailNth(k, recdrv.ErrCrash, &count))
+		defer h.Rec.SetHook(nil)
+		return op.Run(db)
+	})
 	opErr = res.Error
-	h.Rec.SetHook(nil)
 	h.SQL.Close()
 	h.Rec.Uncrash()
 	// "restart": a new process opens the file
@@ -313,22 +376,41 @@ func tableCounts(dump string) map[string]int {
 	return m
 }
 
-var allKinds = append(append([]string{}, txm.OpKinds...), hkKinds...)
+var allKinds = append(append(append([]string{}, txm.OpKinds...), hkKinds...), svKinds...)
 
 func genOp(kind string, seed uint64) txm.Op {
 	if isHk(kind) {
 		return hkGenOp(kind, seed)
 	}
+	if isSv(kind) {
+		return svGenOp(kind, seed)
+	}
 	return txm.GenOp(kind, seed)
 }
+
+// sigTwoPipelines is the one signature of the class: Save of a record whose primary key is set but has no row runs an
+// UPDATE pipeline (with the association saves and the hooks' writes) in a first transaction, commits it, and then an
+// INSERT .. ON CONFLICT pipeline in a second one; a failure in the second leaves what the first committed. A run gets
+// this signature only when ALL of this holds: the operation is a Save with a preset absent key; the failing driver call
+// (or crash point) lies after the first COMMIT of the fault-free call sequence; the error was reported and nothing is
+// left open; and the database is exactly in the state it had when the second transaction was about to begin.
+const sigTwoPipelines = "save-preset-absent-key/failure-in-fallback-insert/what-the-update-pipeline-committed-stays"
 
 func run(c *core.Ctx) {
 	kind := allKinds[c.Case%len(allKinds)]
 	round := c.Case / len(allKinds)
 	// two cycles of coprime length: every (entry, prep) pair comes up for every kind
-	s := spec{entry: []int{0, 0, 1, 2, 3, 4}[round%6], prep: []int{0, 1, 0, 2, 1}[round%5], hk: isHk(kind)}
+	s := spec{entry: []int{0, 0, 1, 2, 3, 4, 5}[round%7], prep: []int{0, 1, 0, 2, 1, 3, 0, 4, 3}[round%9], hk: isHk(kind)}
 	seed := c.R.U64()
 	op := genOp(kind, seed)
+	if s.entry == entryAfterFind && startsFromInheritingSession(kind) {
+		s.entry = 0
+	}
+	if s.entry == entryAfterFind {
+		s.read = c.R.Intn(len(readNames))
+		s.rstyle = core.Pick(c.R, rstyles)
+	}
+	absent := isSaveAbsent(kind)
 	if s.prep != 0 {
 		s.warm = []int{0, 1, 1, 2, 3, 3}[c.R.Intn(6)]
 	}
@@ -343,7 +425,7 @@ func run(c *core.Ctx) {
 		hookStyle, hookForm, hookWho, hookMask = s.hstyle, s.hform, s.hwho, s.hmask
 		defer func() { hookStyle, hookForm, hookWho, hookMask = 0, 0, 0, 0 }()
 	}
-	s.fresh = s.prep != 0 || (s.hk && styleUsesPrepare(s.hstyle))
+	s.fresh = s.prep != 0 || (s.hk && styleUsesPrepare(s.hstyle)) || (s.entry == entryAfterFind && styleUsesPrepare(s.rstyle))
 	x := run1{s: s, op: op}
 	if s.warm == 3 {
 		pool := txm.OpKinds[:16]
@@ -354,7 +436,10 @@ func run(c *core.Ctx) {
 		x.other = &o
 		op.Desc += " [before it on the same handle, under Session{SkipDefaultTransaction:true}: " + o.Desc + "; Preload(Orders).Find(&users); Preload(Entries).Find(&accts)]"
 	}
-	if s.entry != 0 {
+	if s.entry == entryAfterFind {
+		op.Desc += " [db is " + hookStyles[s.rstyle] + " inside func (*" + readModels[s.read] + ") AfterFind(tx *gorm.DB), reached by " + readNames[s.read] + "]"
+		c.Inc("operations_issued_from_an_AfterFind_hook")
+	} else if s.entry != 0 {
 		op.Desc += " [from " + entryNames[s.entry] + "]"
 		c.Inc("operations_entered_through_a_scope_that_returns_a_session")
 	}
@@ -365,23 +450,31 @@ func run(c *core.Ctx) {
 	if s.prep != 0 {
 		c.Inc("operations_on_a_prepared_statement_handle")
 		c.Inc("statement_cache_history_" + warmNames[s.warm])
+		if s.prep >= 3 {
+			c.Inc("operations_on_two_stacked_prepared_statement_wrappers")
+		}
 	}
 	if s.hk {
 		c.Inc("operations_whose_hooks_write_through_a_derived_session")
 	}
 	c.Logf("OP %s", op.Desc)
-	execute := func(op txm.Op, failCall, failHook int) runResult { return x.execute(failCall, failHook, nil, false) }
-	executeCause := func(op txm.Op, failCall, failHook int, cause error) runResult {
-		return x.execute(failCall, failHook, cause, false)
-	}
-	executeCauseBare := func(op txm.Op, failCall, failHook int, cause error, bare bool) runResult {
-		return x.execute(failCall, failHook, cause, bare)
-	}
-
 	// fault-free reference run
-	ff := execute(op, 0, 0)
+	var mid string
+	ref := fault{}
+	if absent {
+		ref.mid = &mid
+	}
+	ff := x.execute(ref)
 	fcalls := faultable(ff.events)
 	K, J := len(fcalls), ff.hooks
+	// firstCommit: 1-based index of the first COMMIT among the faultable calls (K+1 if none)
+	firstCommit := K + 1
+	for i, e := range fcalls {
+		if e.Kind == recdrv.KCommit {
+			firstCommit = i + 1
+			break
+		}
+	}
 	if ff.histErr != nil {
 		// nothing was injected: what ran before the operation (same statements, on the same handle) failed
 		c.Violation("history/"+kind, map[string]interface{}{"op": op.Desc, "problems": []string{"before the operation, with no fault injected, the same handle failed: " + ff.histErr.Error()}})
@@ -418,7 +511,7 @@ func run(c *core.Ctx) {
 	c.Add("driver_calls_enumerated", K)
 	c.Add("hook_points_enumerated", J)
 
-	check := func(what string, r runResult, wantHook bool) {
+	check := func(what string, k int, r runResult, wantHook bool) {
 		var p []string
 		if r.histErr != nil {
 			c.Violation("history/"+kind, map[string]interface{}{"op": op.Desc, "problems": []string{"before the operation, with no fault injected, the same handle failed: " + r.histErr.Error()}})
@@ -446,6 +539,12 @@ func run(c *core.Ctx) {
 			p = append(p, fmt.Sprintf("%d connections still checked out", r.inUse))
 		}
 		c.Inc("faulted_runs")
+		if absent && k > firstCommit && firstCommit < K && len(p) == 1 && r.dump != pre && r.dump == mid {
+			c.Inc("save_of_a_preset_absent_key_failing_in_its_second_pipeline")
+			c.Violation(sigTwoPipelines, map[string]interface{}{"op": op.Desc, "fault": what, "problems": p, "first_commit_is_call": firstCommit,
+				"fault_free_calls": evStrings(fcalls), "events": evStrings(r.events), "hooks": txm.LogString(r.hookLog)})
+			return
+		}
 		if len(p) > 0 {
 			c.Violation(what+"/"+kind, map[string]interface{}{"op": op.Desc, "fault": what, "problems": p,
 				"fault_free_calls": evStrings(fcalls), "events": evStrings(r.events), "hooks": txm.LogString(r.hookLog)})
@@ -459,9 +558,9 @@ func run(c *core.Ctx) {
 	}
 	for k := 1; k <= K; k++ {
 		cause := core.Pick(c.R, causes)
-		r := executeCause(op, k, 0, cause)
+		r := x.execute(fault{call: k, cause: cause})
 		what := fmt.Sprintf("driver-call-%d-of-%d(%s)%s", k, K, fcalls[k-1].Kind, causeName(cause))
-		check(what, r, false)
+		check(what, k, r, false)
 		if cause != nil {
 			c.Inc("fault_wrapping_" + cause.Error())
 			if r.err != nil && !errors.Is(r.err, cause) {
@@ -475,14 +574,14 @@ func run(c *core.Ctx) {
 	for j := 1; j <= J; j++ {
 		cause := core.Pick(c.R, causes)
 		bare := cause != nil && c.R.Intn(2) == 0
-		r := executeCauseBare(op, 0, j, cause, bare)
+		r := x.execute(fault{hook: j, cause: cause, bare: bare})
 		hk := ff.hookLog[j-1]
 		bn := ""
 		if bare {
 			bn = "(bare)"
 			c.Inc("hook_failing_with_a_bare_error_value")
 		}
-		check(fmt.Sprintf("hook-%d-of-%d(%s)%s%s", j, J, hk.Hook+":"+hk.Type, causeName(cause), bn), r, true)
+		check(fmt.Sprintf("hook-%d-of-%d(%s)%s%s", j, J, hk.Hook+":"+hk.Type, causeName(cause), bn), 0, r, true)
 		if cause != nil {
 			c.Inc("fault_wrapping_" + cause.Error())
 		}
@@ -500,6 +599,11 @@ func run(c *core.Ctx) {
 			}
 			if opErr == nil {
 				p = append(p, "the operation reported success although its connection died before COMMIT")
+			}
+			if absent && k > firstCommit && firstCommit < K && len(p) == 1 && opErr != nil && after == mid {
+				c.Inc("save_of_a_preset_absent_key_failing_in_its_second_pipeline")
+				c.Violation(sigTwoPipelines, map[string]interface{}{"op": op.Desc, "crash_at": evStrings(fcalls[k-1 : k]), "problems": p, "first_commit_is_call": firstCommit, "fault_free_calls": evStrings(fcalls)})
+				continue
 			}
 			if len(p) > 0 {
 				c.Violation(fmt.Sprintf("crash-at-call-%d-of-%d(%s)/%s", k, K, fcalls[k-1].Kind, kind), map[string]interface{}{"op": op.Desc, "crash_at": evStrings(fcalls[k-1 : k]), "problems": p, "fault_free_calls": evStrings(fcalls)})
@@ -553,9 +657,9 @@ var Engine = &core.Engine{
 	},
 	Cases: func(tier string) int {
 		if tier == "thorough" {
-			return 27 * 300
+			return len(allKinds) * 300
 		}
-		return 27 * 30
+		return len(allKinds) * 30
 	},
 	Batch:         func(string) int { return 8 },
 	Run:           run,
